@@ -155,6 +155,15 @@ class SigmaCollection:
             ):  # Included rules are already parsed, skip collection action processing
                 parsed_rules.append(rule)
                 rule.source = source
+            elif not isinstance(rule, dict):  # YAML document that is no map, e.g. a list or scalar
+                exception = SigmaCollectionError(
+                    f"Sigma rule { i } must be a map",
+                    source=source,
+                )
+                if collect_errors:
+                    errors.append(exception)
+                else:
+                    raise exception
             else:
                 action = rule.get("action")
                 if action is None:  # no action defined
